@@ -44,8 +44,17 @@ RULE = ("merge: every multiset of <= 3 (quick) / <= 4 (thorough) of the 36 inter
         "overlapping CDS / exon children carry different frames; (regression class) merge_all(exclude_components=True) with 2..3 "
         "featuretype groups, every group holding overlapping series of its own (multi-member runs in groups other than the "
         "last), 70% of the databases with a 'locus' parent outside every group so that the members hold relation rows, default "
-        "and non-default criteria as list / tuple / set / callable. non-trivial = the model has >= 1 multi-member "
-        "run and >= 1 singleton; distinct = distinct (features, criteria, follow-up) tuples")
+        "and non-default criteria as list / tuple / set / callable; two-stage merges: start-ordered lists of one seqid / type in "
+        "2..4 clusters of 1..4 features chained on one strand, consecutive clusters mostly on different strands and overlapping, "
+        "touching or 2..6 bases apart, merged per strand first (default criteria, or threshold 0 / 1), then the objects that call "
+        "yielded - multi-member outputs with their children and singletons -, mixed in start order with 0..2 new Feature objects, "
+        "merged again ignoring the strand or with a wider reach (threshold 2..6), as Feature objects (75%) or read from a "
+        "database, the second stage repeated on the same objects; ONE very long run per run (one shard of four): 1000..1100 "
+        "features of one seqid / strand / type, each beginning inside its predecessor or on the base after it, plus a short run, "
+        "a singleton, features on another strand / seqid / type over the same coordinates and a 'locus' parent named by 80% of "
+        "the features, file order shuffled, through merge_all(exclude_components=True) and (=False). non-trivial = the model has >= 1 multi-member "
+        "run and >= 1 singleton (two-stage merges: a multi-member output of the first stage opens a multi-member run of the second); "
+        "distinct = distinct (features, criteria, follow-up) tuples")
 REQUIRED = ["merge calls", "outputs mapped to inputs by identity", "multi-member runs compared", "singleton outputs compared",
             "position-set union comparisons (default criteria)", "merged ids checked", "calls yielding >= 2 merged outputs",
             "re-merge calls: same objects, same criteria", "re-merge calls: same objects, other criteria",
@@ -110,7 +119,21 @@ REQUIRED = ["merge calls", "outputs mapped to inputs by identity", "multi-member
             "merge_all exclude_components, several groups: calls with multi-member runs in two or more groups",
             "merge_all exclude_components, several groups: members of runs in a group other than the last, each deleted",
             "merge_all exclude_components, several groups: such members held relation rows before the call",
-            "merge_all: relation rows of deleted members checked to be gone"]
+            "merge_all: relation rows of deleted members checked to be gone",
+            "long run: merge_all(exclude_components=True) calls over one run of >= 1000 members",
+            "long run: merge_all(exclude_components=False) calls over one run of >= 1000 members",
+            "long run: members of such a run, each deleted",
+            "long run: members at positions 998, 999, 1000, ... of the run, each deleted",
+            "long run: relation rows naming a member before the call, all gone afterwards",
+            "long run: members of such a run, each related to the new feature at level 1",
+            "long run: members at positions 998, 999, 1000, ... of the run, each related to the new feature at level 1",
+            "re-merge: second-stage merge() calls over the objects an earlier merge() yielded",
+            "re-merge: second stage ignoring the strand", "re-merge: second stage with a wider reach",
+            "re-merge: second-stage calls in which new features are mixed with the earlier outputs",
+            "re-merge: multi-member outputs of an earlier merge() that open a multi-member run of the second stage",
+            "re-merge: multi-member outputs of an earlier merge() that join a run of the second stage behind its first member",
+            "re-merge: inputs of the second stage compared before / after (printed form, id, columns, children list)",
+            "re-merge: the same objects merged once more: partition and extents compared with the previous result"]
 REQUIRED_CLASSES = ["merge/exhaustive uniform default", "merge/exhaustive grouped default", "merge/exhaustive criteria",
                     "merge/random objects", "merge/random db", "merge_all/keep", "merge_all/exclude", "children_bp",
                     "merge/shaped objects", "merge/shaped db", "merge_all/shaped keep", "merge_all/shaped exclude",
@@ -120,7 +143,9 @@ REQUIRED_CLASSES = ["merge/exhaustive uniform default", "merge/exhaustive groupe
                     "merge_all/several groups, criteria as set", "merge_all/several groups, criteria as callable",
                     "merge/frames varying inside runs, objects", "merge/frames varying inside runs, db",
                     "merge_all/frames varying inside runs, keep", "merge_all/frames varying inside runs, exclude",
-                    "children_bp/frames varying among the children", "merge_all/several groups, exclude_components"]
+                    "children_bp/frames varying among the children", "merge_all/several groups, exclude_components",
+                    "merge/outputs of an earlier merge() as inputs, objects", "merge/outputs of an earlier merge() as inputs, db",
+                    "merge_all/one run of >= 1000 members, exclude", "merge_all/one run of >= 1000 members, keep"]
 ASSUMPTIONS = [
     "the shipped criteria carry no documentation beyond their names; the model re-states them as 'cur begins inside the run "
     "or within `reach` bases after it' / 'cur ends inside the run or within `reach` bases before it', with "
@@ -151,7 +176,15 @@ ASSUMPTIONS = [
     "'.'; which frame the merged feature itself reports is not stated and not judged (counted); under other criteria lists the "
     "reported strand is only counted",
     "'deletes them' (exclude_components) includes the relation rows that name a deleted member; asserted in the regression "
-    "class (several featuretype groups, members hanging under a parent outside every group), counted elsewhere",
+    "class (several featuretype groups, members hanging under a parent outside every group) and for the one very long run, "
+    "counted elsewhere",
+    "objects an earlier merge() yielded are inputs like any other (the quantifier's 'previously merged feature objects'): the "
+    "criteria see the columns they report; they keep printed form, id, columns and - when they become children of a later "
+    "output - their own children list; one that the later call yields as a run of its own is 'yielded unchanged with no "
+    "children', so an emptied children list is accepted there (counted); first stages always hold the seqid criterion (outputs "
+    "with comma-joined seqids are not re-merged: statement silent)",
+    "delete() itself is not called by this check (C10 judges it); a run of >= 1000 members reaches it through "
+    "merge_all(exclude_components=True) only",
 ]
 EXHAUSTIVE_NOTE = ("all multisets of <= 3 (quick) or <= 4 (thorough) intervals over 8 positions, both tie orders, are executed "
                    "with uniform labels under the default criteria; labellings and other criteria are sampled")
@@ -480,6 +513,10 @@ def execute(ctx, case):
             return execute_merge_all(ctx, case)
         if kind == "empty":
             return execute_empty(ctx, case)
+        if kind == "long":
+            return execute_long(ctx, case)
+        if kind == "remerge":
+            return execute_remerge(ctx, case)
         return execute_children_bp(ctx, case)
     finally:
         for v in contracts.drain():
@@ -656,8 +693,12 @@ def judge_merge_all(ctx, case, db, rows, ids, desc, exclude, groups, form):
         af = {f["id"]: f for f in after["features"]}
 
         def bad(why, **more):
+            if more.get("id") in members:
+                # where in its run (merge order, counted from 1) the member sits
+                more["position_in_run"], more["run_length"] = [(r.index(i) + 1, len(r)) for r in multi for i in r if ids[i] == more["id"]][0]
             ctx.violation(case, dict(more, why="merge_all: " + why, criteria=desc, exclude_components=exclude,
-                                     model_runs=[[ids[i] for i in r] for r in multi][:8]))
+                                     model_runs=[[ids[i] for i in r[:12]] + (["... %d members" % len(r)] if len(r) > 12 else [])
+                                                 for r in multi][:8]))
             return None
 
         if len(af) != len(after["features"]):
@@ -756,6 +797,173 @@ def judge_merge_all(ctx, case, db, rows, ids, desc, exclude, groups, form):
                 ctx.mon("merge_all: identical features (all columns and attributes) that are members of runs: %s"
                         % ("each deleted" if exclude else "each related to the new feature at level 1"), n)
         return got_ext
+
+
+# -- one very long run through merge_all ----------------------------------------------------------------------------------------
+def execute_long(ctx, case):
+    """kind "long": {"seed", "n" (>= 1000), "exclude_components", "form", "dbfile"}.  G.long_run_rows(seed, n) -> a database in
+    which n mutually chained features of one seqid / strand / type form ONE run under the default criteria (plus a short run, a
+    singleton, features on other labels and a 'locus' parent named by most features).  merge_all is judged as everywhere else
+    (judge_merge_all): one new feature per multi-member run, EVERY member deleted together with the relation rows that name it
+    / related to the new feature at level 1 - the members at positions 998, 999, 1000, ... of the run like the first ones."""
+    import gffutils
+
+    rows, ids, parents, chain = G.long_run_rows(case["seed"], case["n"])
+    exclude = case["exclude_components"]
+    sel = sorted(range(len(rows)), key=lambda i: (rows[i][0], rows[i][2], rows[i][1], rows[i][3]))
+    runs = M.single_pass([model_row(rows[i]) for i in sel], M.DEFAULT)
+    longest = max(runs, key=len)
+    if sorted(sel[j] for j in longest) != sorted(chain) or len(chain) < 1000:
+        raise AssertionError("harness: the generated chain is not one run of >= 1000 members under the default criteria")
+    dbfn = ctx.tmp(".db") if case.get("dbfile") else ":memory:"
+    try:
+        db = gffutils.create_db(G.gff3(rows, ids, parents), dbfn, from_string=True)
+    except Exception as ex:
+        ctx.violation(case, {"why": "harness: building the input database raised %r" % (ex,)})
+        return False
+    try:
+        rel0 = sum(1 for p, c, _ in dbdump.dump_db(db)["relations"] if c in set(ids[i] for i in chain))
+        ext = judge_merge_all(ctx, dict(case, assert_relations=True), db, rows, ids, list(M.DEFAULT), exclude, None, case.get("form", "list"))
+        if ext is None:
+            return False
+        what = "exclude_components=True" if exclude else "exclude_components=False"
+        ctx.mon("long run: merge_all(%s) calls over one run of >= 1000 members" % what)
+        ctx.mon("long run: members of such a run, each %s" % ("deleted" if exclude else "related to the new feature at level 1"), len(chain))
+        ctx.mon("long run: members at positions 998, 999, 1000, ... of the run, each %s"
+                % ("deleted" if exclude else "related to the new feature at level 1"), len(chain) - 997)
+        if exclude:
+            ctx.mon("long run: relation rows naming a member before the call, all gone afterwards", rel0)
+        return True
+    finally:
+        close_db(db, dbfn)
+
+
+# -- multi-member outputs of an earlier merge() as inputs of a later one ------------------------------------------------------------
+def execute_remerge(ctx, case):
+    """kind "remerge": {"feats", "source", ["ids"], "criteria" (first stage), "second" (second stage), "new": rows}.
+
+    Stage 1: merge(features, criteria) - judged like every merge() call.  Stage 2: the objects stage 1 yielded (multi-member
+    outputs with their children, and unchanged singletons), mixed in start order with `new` Feature objects, are merged under
+    `second` (the strand ignored, or a wider reach), so that multi-member outputs of stage 1 open or join runs.  They are inputs
+    like any other: judged by one_merge against the model over the columns they report (partition by identity, a merged output
+    is a NEW object with a new id, extents), their columns / id / children list are the same afterwards, and merging the same
+    objects once more gives the same partition and extents."""
+    import gffutils
+
+    rows, desc1, desc2, new = case["feats"], case["criteria"], case["second"], case.get("new") or []
+    model_in = [model_row(r) for r in rows]
+    db = dbfn = None
+    useful = False
+    try:
+        if case["source"] == "objects":
+            db = scratch_db()
+            feats = [gffutils.Feature(seqid=r[0], source="src%d" % (i % 2), featuretype=r[2], start=r[3], end=r[4], strand=r[1],
+                                      attributes={"ID": ["in%d" % i]}, id="in%d" % i) for i, r in enumerate(rows)]
+        else:
+            dbfn = ctx.tmp(".db") if case.get("dbfile") else ":memory:"
+            try:
+                db = gffutils.create_db(G.gff3(rows, case["ids"]), dbfn, from_string=True)
+                by_id = {f.id: f for f in db.all_features()}
+                feats = [by_id[i] for i in case["ids"]]
+            except Exception as ex:
+                ctx.violation(case, {"why": "harness: building the input database raised %r" % (ex,)})
+                return False
+        strs = [str(f) for f in feats]
+        dump0 = dbdump.dump_db(db)
+        dbids = set(f["id"] for f in dump0["features"])
+        log0, auth0 = len(sqltrace.LOG), len(sqltrace.AUTH)
+        issued = set()
+        out1 = one_merge(ctx, case, db, feats, model_in, desc1, "first merge", issued, dbids)
+        ctx.mon("input str() comparisons", len(feats))
+        if [str(f) for f in feats] != strs:
+            ctx.violation(case, {"why": "an input feature was changed by merge() (first merge)", "criteria": desc1})
+            return False
+        if out1 is None:
+            return False
+        if any("," in str(o.seqid) for o in out1):
+            ctx.skip("re-merge of yielded objects carrying a comma-joined seqid (statement silent)")
+            return False
+        newf = [gffutils.Feature(seqid=r[0], source="new", featuretype=r[2], start=r[3], end=r[4], strand=r[1],
+                                 attributes={"ID": ["nw%d" % i]}, id="nw%d" % i) for i, r in enumerate(new)]
+        inputs2 = sorted(list(out1) + newf, key=lambda f: f.start)        # stable: start order, earlier outputs first on ties
+        model2 = [observe(o) for o in inputs2]
+        was_multi = [bool(getattr(o, "children", None)) for o in inputs2]
+
+        def snapshot():
+            return [(str(o), o.id, o.seqid, o.strand, o.featuretype, o.start, o.end, [id(c) for c in (getattr(o, "children", None) or ())])
+                    for o in inputs2]
+
+        def partition(out):
+            return sorted((o.start, o.end, sorted(index[id(c)] for c in (getattr(o, "children", None) or [o]))) for o in out)
+
+        index = {id(o): k for k, o in enumerate(inputs2)}
+        snap = snapshot()
+        exp_runs = M.single_pass(model2, desc2)
+        in_multi_run = set(k for r in exp_runs if len(r) > 1 for k in r)
+        lead = sum(1 for r in exp_runs if len(r) > 1 and was_multi[r[0]])
+        join = sum(1 for r in exp_runs if len(r) > 1 for k in r[1:] if was_multi[k])
+        step = "multi-member outputs of an earlier merge() among the inputs"
+        out2 = one_merge(ctx, case, db, inputs2, model2, desc2, step, issued, dbids)
+        if out2 is None:
+            return False
+        ctx.mon("re-merge: second-stage merge() calls over the objects an earlier merge() yielded")
+        ctx.mon("re-merge: second stage %s" % ("ignoring the strand" if "strand" not in desc2 else "with a wider reach"))
+        if newf:
+            ctx.mon("re-merge: second-stage calls in which new features are mixed with the earlier outputs")
+        ctx.mon("re-merge: multi-member outputs of an earlier merge() that open a multi-member run of the second stage", lead)
+        ctx.mon("re-merge: multi-member outputs of an earlier merge() that join a run of the second stage behind its first member", join)
+
+        def same_inputs(when):
+            now = snapshot()
+            for k, (a, b) in enumerate(zip(snap, now)):
+                ctx.mon("re-merge: inputs of the second stage compared before / after (printed form, id, columns, children list)")
+                if a[:7] != b[:7]:
+                    ctx.violation(case, {"why": "an input feature was changed by merge() (%s; %s)" % (step, when), "before": list(a[:7]),
+                                         "after": list(b[:7]), "was a multi-member output of the first merge()": was_multi[k],
+                                         "criteria": desc2})
+                    return False
+                if a[7] != b[7]:
+                    if k not in in_multi_run and not b[7]:
+                        # yielded by the second stage as a run of its own: "yielded unchanged with no children"
+                        ctx.mon("re-merge: earlier multi-member outputs yielded by the second stage as singletons (children list now "
+                                "empty: the statement's 'with no children')")
+                        continue
+                    ctx.violation(case, {"why": "the children list of an input feature was changed by merge() (%s; %s)" % (step, when),
+                                         "input": list(a[:7]), "children before": len(a[7]), "children after": len(b[7]), "criteria": desc2})
+                    return False
+            return True
+
+        if not same_inputs("first call"):
+            return False
+        # the same objects once more
+        out3 = one_merge(ctx, case, db, inputs2, [observe(o) for o in inputs2], desc2, "same objects, same criteria", issued, dbids)
+        if out3 is None:
+            return False
+        ctx.mon("re-merge: the same objects merged once more: partition and extents compared with the previous result")
+        if partition(out3) != partition(out2):
+            ctx.violation(case, {"why": "merging the same objects again gives another result (%s)" % step, "first": partition(out2)[:8],
+                                 "again": partition(out3)[:8], "criteria": desc2})
+            return False
+        if not same_inputs("second call"):
+            return False
+        ctx.mon("input str() comparisons", len(feats))
+        if [str(f) for f in feats] != strs:
+            ctx.violation(case, {"why": "an input feature was changed by merge() (%s)" % step, "criteria": desc2})
+            return False
+        stmts, auth = sqltrace.writes(since_log=log0, since_auth=auth0)
+        sqltrace.reset()
+        d = dbdump.diff(dump0, dbdump.dump_db(db))
+        ctx.mon("database dumps compared")
+        if d:
+            ctx.violation(case, {"why": "database content changed by merge()", "diff": d, "criteria": desc2})
+        elif stmts or auth:
+            ctx.violation(case, {"why": "write statement on the database connection during merge()", "statements": stmts[:3],
+                                 "authorizer": auth[:3]})
+        useful = lead > 0
+    finally:
+        if dbfn is not None:
+            close_db(db, dbfn)
+    return useful
 
 
 # -- children_bp ---------------------------------------------------------------------------------------------------------------
@@ -1361,6 +1569,25 @@ def run(ctx):
         ctx.case((case["feats"], case["parents"], case["criteria"], case["groups"], case["form"], case.get("frames")),
                  nontrivial(sorted(case["feats"], key=lambda r: (r[0], r[2], r[1], r[3])), case["criteria"]),
                  cls="merge_all/several groups, exclude_components")
+    # 10. multi-member outputs of an earlier merge() as inputs of a later, looser merge()
+    for _ in range(ctx.budget(1600, 48000)):
+        rows, first, second, new = G.remerge_feats(rng)
+        case = {"kind": "remerge", "feats": rows, "criteria": first, "second": second, "new": new, "form": G.criteria_form(rng, second)}
+        if rng.random() < 0.75:
+            case["source"] = "objects"
+        else:
+            case.update(source="db", ids=G.ids_for(rng, rows), dbfile=rng.random() < 0.15)
+        useful = execute(ctx, case)
+        ctx.case((case["feats"], first, second, new, case["source"]), bool(useful), sample=case if len(rows) <= 4 else None,
+                 cls="merge/outputs of an earlier merge() as inputs, " + case["source"])
+    # 11. ONE very long run (>= 1000 chained members) through merge_all, with and without exclude_components: one shard of four
+    if ctx.shard % 4 == 1:
+        for exclude in (True, False):
+            case = {"kind": "long", "seed": rng.randrange(1 << 30), "n": rng.randrange(1000, 1101), "exclude_components": exclude,
+                    "form": rng.choice(["list", "tuple"]), "dbfile": exclude and rng.random() < 0.5}
+            ok = execute(ctx, case)
+            ctx.case(("long", case["seed"], case["n"], exclude), bool(ok), sample=case,
+                     cls="merge_all/one run of >= 1000 members, " + ("exclude" if exclude else "keep"))
     ctx.mon("bins.bins contract evaluations", contracts.EVALS["bins.bins"])
 
 
@@ -1389,7 +1616,12 @@ MANIFEST = {
             "merge(), merge_all() and children_bp(): extents stay the maximal union, the output reports the strand its children "
             "share, children_bp(merge=True) equals the union size; merge_all(exclude_components=True) over several featuretype "
             "groups with multi-member runs in groups other than the last: every member of every run, and every relation row "
-            "naming it, is gone afterwards. "
+            "naming it, is gone afterwards; two-stage merges in which the multi-member outputs of a per-strand merge() open and join "
+            "runs of a later, looser merge() (strand ignored or wider reach, new features mixed in): they are inputs like any other "
+            "- not mutated (printed form, id, columns, children list), every merged output a new object with a new id, partition and "
+            "extents as the model says, the same result when the same objects are merged once more; and one run of 1000..1100 "
+            "chained members through merge_all with and without exclude_components (every member, the 998th, 999th, 1000th ... "
+            "included, deleted together with its relation rows / related to the new feature). "
             "Held = no executed case disagreed.",
     "note": "Trusted: gvmon/models/c16_merge.py (its reading of the undocumented criteria names), create_db. Not asserted: "
             "bin / attributes / source / seqid / strand / type of in-memory merged outputs under non-default criteria, the frame a "
